@@ -135,10 +135,11 @@ func instrumentDir(dir string) {
 		addImport(f)
 		dropUnusedImports(f, "sync", "time", "runtime", "sync/atomic", "context")
 		var buf bytes.Buffer
-		buf.WriteString("//go:build go1.18\n\n")
-		if err := format.Node(&buf, fset, f); err != nil {
+		var src bytes.Buffer
+		if err := format.Node(&src, fset, f); err != nil {
 			fatal("format:", err)
 		}
+		buf.Write(withLanguageVersion(src.Bytes(), dir))
 		if err := os.WriteFile(names[i], buf.Bytes(), 0o644); err != nil {
 			fatal(err)
 		}
@@ -754,4 +755,59 @@ func dropUnusedImports(f *ast.File, paths ...string) {
 			}
 		}
 	}
+}
+
+// moduleGoVersion returns (major, minor) of the `go` directive of the go.mod that governs dir.
+func moduleGoVersion(dir string) (int, int) {
+	d, _ := filepath.Abs(dir)
+	for {
+		b, err := os.ReadFile(filepath.Join(d, "go.mod"))
+		if err == nil {
+			for _, line := range strings.Split(string(b), "\n") {
+				f := strings.Fields(line)
+				if len(f) >= 2 && f[0] == "go" {
+					var maj, min int
+					fmt.Sscanf(f[1], "%d.%d", &maj, &min)
+					return maj, min
+				}
+			}
+			return 1, 16
+		}
+		p := filepath.Dir(d)
+		if p == d {
+			return 1, 16
+		}
+		d = p
+	}
+}
+
+// withLanguageVersion makes sure a rewritten file may use generics (the calls into simrt are
+// generic): if the module declares go < 1.18 the file gets a `//go:build go1.18` constraint, which
+// raises the language version for this file only and keeps the pre-1.22 loop-variable semantics of
+// the module; an existing //go:build line is combined with it. Modules that already declare
+// go >= 1.18 are left alone (adding the constraint there would LOWER the file's language version).
+func withLanguageVersion(src []byte, dir string) []byte {
+	maj, min := moduleGoVersion(dir)
+	if maj > 1 || min >= 18 {
+		return src
+	}
+	lines := strings.Split(string(src), "\n")
+	for i, l := range lines {
+		t := strings.TrimSpace(l)
+		if strings.HasPrefix(t, "//go:build ") {
+			lines[i] = "//go:build (" + strings.TrimSpace(strings.TrimPrefix(t, "//go:build ")) + ") && go1.18"
+			out := lines[:0:0]
+			for _, x := range lines {
+				if strings.HasPrefix(strings.TrimSpace(x), "// +build ") {
+					continue // the old-style line would contradict the combined constraint
+				}
+				out = append(out, x)
+			}
+			return []byte(strings.Join(out, "\n"))
+		}
+		if strings.HasPrefix(t, "package ") {
+			break
+		}
+	}
+	return append([]byte("//go:build go1.18\n\n"), src...)
 }
